@@ -525,7 +525,7 @@ fn check_sfnt(case: &Case, model: &Model, rec: &mut Rec) -> CaseResult {
     }
     // member index beyond the end of a collection
     if ttc {
-        for idx in [nm, nm + 1, nm + 7, 255, 256, 65535, 65536, usize::MAX / 4, usize::MAX] {
+        for idx in [nm, nm + 1, nm + 7, 255, 256, 65535, 65536, usize::MAX / 4, usize::MAX / 4 + 1, usize::MAX / 4 + 2, 1usize << 62, (1usize << 62) + 1, 1usize << 63, usize::MAX / 2 + 2, usize::MAX - 1, usize::MAX] {
             if idx < nm {
                 continue;
             }
@@ -775,12 +775,12 @@ fn check_woff2_fixture(i: u64, rec: &mut Rec) -> CaseResult {
             return Err(fail("woff2-member-err", format!("{}: table_provider({}) of {} failed: {:?}", rel, idx, n, e)));
         }
     }
-    for idx in [n, n + 1, 255, 65536, usize::MAX] {
+    for idx in [n, n + 1, 255, 65536, usize::MAX / 4 + 1, 1usize << 62, (1usize << 62) + 1, 1usize << 63, usize::MAX] {
         if fd.table_provider(idx).is_ok() {
             return Err(fail("woff2-index-beyond-end", format!("{}: table_provider({}) succeeded on a collection of {} fonts", rel, idx, n)));
         }
     }
-    rec.evaluations(5 + n as u64);
+    rec.evaluations(9 + n as u64);
     Ok(())
 }
 
